@@ -7,11 +7,114 @@ another bulb; a numbered wall has exactly that many bulbs in the (at most four) 
 Answer keys: has_light[y][x], row-major (h*w bools); wall cells never carry a bulb (False).
 Well-formed = every cell value in {-2, -1, 0, 1, 2, 3, 4}; any numbered wall may stand anywhere (a 4 in a corner is a
 legal, unsolvable, problem).
+
+Two enumerators: subsets() walks all 2^(empty cells) bulb sets (boards up to 16 cells); search() decides the cells one by
+one and gives up a branch as soon as a bulb would see an earlier bulb, a numbered wall has too many bulbs or too few cells
+left for its number, or an empty cell all of whose visible cells are decided is unlit - consequences of the rules above only;
+selftest() compares both on every board up to 16 cells.  readings() uses search() beyond 16 cells.
+
+Shape ("large", h, w): the board without walls, and for four wall patterns (two lattices, a dense one, walls in the last
+row / last column / far corner) the board with plain walls and dense instances derived from its first and last answer G:
+every wall numbered as G implies, all minus every k-th number, one number +1 / -1 (first, last, middle wall), only the
+far-most wall numbered.  Shape ("example", 10, 10): instances derived from the published example (example_layouts()).
 """
 
 from . import base
 
 DIRS = ((0, 1), (1, 0), (0, -1), (-1, 0))
+SMALL = 16  # boards up to this many cells are enumerated by subsets()
+
+
+def search(h, w, prob):
+    """All has_light tuples (row-major) obeying the rules, by pruned search over the cells in row-major order."""
+    n = h * w
+    empty = [prob[y][x] == -2 for y in range(h) for x in range(w)]
+    sees = [0] * n  # for an empty cell: the cells it sees, itself included
+    for i in range(n):
+        if not empty[i]:
+            continue
+        y, x = divmod(i, w)
+        m = 1 << i
+        for dy, dx in DIRS:
+            yy, xx = y + dy, x + dx
+            while 0 <= yy < h and 0 <= xx < w and empty[yy * w + xx]:
+                m |= 1 << (yy * w + xx)
+                yy += dy
+                xx += dx
+        sees[i] = m
+    due = [[] for _ in range(n)]  # due[i]: empty cells whose visible cells are all decided once cell i is
+    for k in range(n):
+        if empty[k]:
+            due[sees[k].bit_length() - 1].append(k)
+    walls_at = [[] for _ in range(n)]
+    for y in range(h):
+        for x in range(w):
+            c = prob[y][x]
+            if c >= 0:
+                adj = 0
+                for dy, dx in DIRS:
+                    yy, xx = y + dy, x + dx
+                    if 0 <= yy < h and 0 <= xx < w and empty[yy * w + xx]:
+                        adj |= 1 << (yy * w + xx)
+                if bin(adj).count("1") < c:
+                    return []
+                k = adj
+                while k:
+                    walls_at[(k & -k).bit_length() - 1].append((adj, c))
+                    k &= k - 1
+    out = []
+
+    def rec(i, lights):
+        while i < n and not empty[i]:
+            i += 1
+        if i == n:
+            out.append(lights)
+            return
+        before = (1 << i) - 1
+        later = ~((1 << (i + 1)) - 1)
+        for v in (0, 1):
+            if v and lights & sees[i] & before:
+                continue
+            nl = lights | (v << i)
+            ok = True
+            for adj, c in walls_at[i]:
+                cnt = bin(nl & adj).count("1")
+                if cnt > c or cnt + bin(adj & later).count("1") < c:
+                    ok = False
+                    break
+            if ok:
+                for k in due[i]:
+                    if not nl & sees[k]:
+                        ok = False
+                        break
+            if ok:
+                rec(i + 1, nl)
+
+    rec(0, 0)
+    return [tuple(bool(m >> i & 1) for i in range(n)) for m in out]
+
+
+def wall_patterns(h, w):
+    """Four deterministic wall layouts (lists of cell indices) for the large boards."""
+    cells = [(y, x) for y in range(h) for x in range(w)]
+    pats = [
+        [y * w + x for y, x in cells if (x + 2 * y) % 5 == 2],
+        [y * w + x for y, x in cells if (3 * x + y) % 7 == 3],
+        [y * w + x for y, x in cells if (x + y) % 3 == 1 and (x * y) % 2 == 0],
+        sorted(set([h * w - 1, (h - 1) * w + w // 2, (h // 2) * w + w - 1, 0])),
+    ]
+    out = []
+    for p in pats:
+        if p and p not in out and len(p) < h * w:
+            out.append(p)
+    return out
+
+
+def pick(seq, k):
+    """k evenly spaced elements of seq, first and last included (all of seq when it has at most k elements)."""
+    if len(seq) <= k:
+        return list(seq)
+    return [seq[(len(seq) - 1) * j // (k - 1)] for j in range(k)]
 
 
 class Akari(base.Rule):
@@ -19,15 +122,77 @@ class Akari(base.Rule):
 
     def shapes(self, tier):
         s = [(1, 1), (1, 2), (2, 1), (1, 3), (3, 1), (2, 2), (1, 4), (4, 1), (2, 3), (3, 2), (3, 3)]
+        large = [("large", 5, 5), ("large", 6, 5), ("large", 5, 6), ("large", 6, 6), ("large", 7, 7), ("large", 2, 10), ("large", 10, 2), ("large", 1, 12), ("large", 12, 1), ("example", 10, 10)]
         if tier != "quick":
             s += [(1, 5), (5, 1), (2, 4), (4, 2), (3, 4), (4, 3)]
-        return s
+            large += [("large", 3, 8), ("large", 8, 3), ("large", 4, 8), ("large", 8, 4), ("large", 6, 7), ("large", 7, 6), ("large", 1, 15), ("large", 15, 1)]
+        return s + large
 
     def instances(self, shape, cap):
+        if shape[0] == "large":
+            for cells in self.large_layouts(shape[1], shape[2], cap <= 1000):
+                yield {"height": shape[1], "width": shape[2], "problem": base.grid(cells, shape[1], shape[2])}
+            return
+        if shape[0] == "example":
+            for cells in self.example_layouts(cap <= 1000):
+                yield {"height": shape[1], "width": shape[2], "problem": base.grid(cells, shape[1], shape[2])}
+            return
         h, w = shape
         lays, k = base.layouts(h * w, -2, [-1, 0, 1, 2, 3, 4], cap)
         for cells in lays:
             yield {"height": h, "width": w, "problem": base.grid(cells, h, w)}
+
+    def example_layouts(self, quick):
+        """The published 10x10 example (search() enumerates it although it has 100 cells): itself, every third / second
+        number dropped, each number dropped, each number +1 / -1 (quick: first, last, middle only)."""
+        cells = [c for row in self.example()[0]["problem"] for c in row]
+        nums = [i for i, c in enumerate(cells) if c >= 0]
+        out = [cells]
+        for k, off in ((3, 0), (3, 1), (3, 2), (2, 1)):
+            out.append([(-1 if i in nums and nums.index(i) % k == off else c) for i, c in enumerate(cells)])
+        for q in [nums[0], nums[-1], nums[len(nums) // 2]] if quick else nums:
+            out.append([(-1 if i == q else c) for i, c in enumerate(cells)])
+            for d in (1, -1):
+                if 0 <= cells[q] + d <= 4:
+                    out.append([(c + d if i == q else c) for i, c in enumerate(cells)])
+        return out
+
+    def large_layouts(self, h, w, quick):
+        n = h * w
+        out = [[-2] * n]
+        for pi, walls in enumerate(wall_patterns(h, w)):
+            plain = [-1 if c in walls else -2 for c in range(n)]
+            out.append(plain)
+            sols = search(h, w, base.grid(plain, h, w))
+            gs = pick(sols, 2)
+            if quick and sols:  # one grid per pattern: the first and the last answer in turn
+                gs = [sols[0]] if pi % 2 == 0 else [sols[-1]]
+            for gi, g in enumerate(gs):
+                num = {}
+                for c in walls:
+                    y, x = divmod(c, w)
+                    num[c] = sum(1 for dy, dx in DIRS if 0 <= y + dy < h and 0 <= x + dx < w and g[(y + dy) * w + x + dx])
+                var = {"full": dict(num)}
+                var["minus2"] = {c: (num[c] if t % 2 == 0 else -1) for t, c in enumerate(walls)}
+                var["minus3"] = {c: (num[c] if t % 3 != 2 else -1) for t, c in enumerate(walls)}
+                var["farmost"] = {c: (num[c] if c == walls[-1] else -1) for c in walls}
+                for name, t in (("first", 0), ("last", len(walls) - 1), ("mid", len(walls) // 2)):
+                    for d in (1, -1):
+                        if 0 <= num[walls[t]] + d <= 4:
+                            v = dict(num)
+                            v[walls[t]] += d
+                            var["%s%+d" % (name, d)] = v
+                if quick:  # every kind of variant about once, spread over the patterns
+                    names = ["full"] + (["last-1", "minus3"], ["minus2", "first+1"], ["mid-1", "farmost"], ["minus2", "last+1"])[pi % 4]
+                else:
+                    names = list(var) if gi == 0 else ["full", "minus2", "last-1", "first+1"]
+                for k in names:
+                    if k not in var:
+                        continue
+                    cells = [var[k].get(c, -2) for c in range(n)]
+                    if cells not in out:
+                        out.append(cells)
+        return out
 
     def call(self, p):
         from cspuz.puzzle import akari
@@ -36,6 +201,12 @@ class Akari(base.Rule):
         return is_sat, base.sols_of(has_light)
 
     def readings(self, p):
+        h, w = p["height"], p["width"]
+        if h * w > SMALL:
+            return [search(h, w, p["problem"])]
+        return [self.subsets(p)]
+
+    def subsets(self, p):
         h, w = p["height"], p["width"]
         prob = p["problem"]
         n = h * w
@@ -87,7 +258,7 @@ class Akari(base.Rule):
                     break
             if ok:
                 out.append(tuple(bool(lights >> i & 1) for i in range(n)))
-        return [out]
+        return out
 
     def example(self):
         prob = [
@@ -97,6 +268,33 @@ class Akari(base.Rule):
             [-2, -2, -2, -2, -2, -2, -2, -1, -2, -2],
         ]
         return {"height": 10, "width": 10, "problem": prob}, "cspuz/puzzle/akari.py _main() (10x10; checked by solvability only: too large to enumerate)"
+
+
+def selftest():
+    """search() against the walk over all bulb sets on every board up to 16 cells: no walls, every layout with one or two
+    walls over -1 0 1 2 3 4 (every 5th layout on boards of more than 9 cells, every 29th beyond 12), and the dense layouts of large_layouts()."""
+    import itertools
+
+    r = Akari()
+    checked = 0
+    for h, w in [(h, w) for h in range(1, 17) for w in range(1, 17) if h * w <= SMALL]:
+        n = h * w
+        lays = [[-2] * n]
+        for k in (1, 2):
+            for pos in itertools.combinations(range(n), k):
+                for vals in itertools.product([-1, 0, 1, 2, 3, 4], repeat=k):
+                    cells = [-2] * n
+                    for q, v in zip(pos, vals):
+                        cells[q] = v
+                    lays.append(cells)
+        if n > 9:
+            lays = lays[:: 5 if n <= 12 else 29]
+        lays += r.large_layouts(h, w, False)
+        for cells in lays:
+            p = {"height": h, "width": w, "problem": base.grid(cells, h, w)}
+            assert sorted(search(h, w, p["problem"])) == sorted(r.subsets(p)), p
+            checked += 1
+    return checked
 
 
 RULE = Akari()
